@@ -62,7 +62,7 @@ section
 variable {C : Codec} (hC : C.Valid)
 include hC
 
-theorem requant_near {d : Int} (hd : d.natAbs ≤ durMax.toNat) : DurNear (C.requant d) d := by
+theorem requant_near {d : Int} (hd : DurDom d) : DurNear (C.requant d) d := by
   obtain ⟨q, n, _, h2, h3, h4, h5, h6⟩ := fmtDur_spec hC hd
   simp only [DurNear, Codec.requant, h2, Option.getD_some]
   split <;> omega
